@@ -2,6 +2,7 @@ package main
 
 import (
 	"fmt"
+	"go/constant"
 	"go/token"
 	"go/types"
 	"strings"
@@ -147,9 +148,9 @@ func (s State) ret(fr *Frame, call ssa.Value, idx int) (Ref, bool) {
 }
 
 type predList struct {
-	fr       *Frame
+	fr        *Frame
 	blk, from int
-	next     *predList
+	next      *predList
 }
 
 func (s State) predOf(fr *Frame, blk int) (int, bool) {
@@ -262,8 +263,8 @@ type Spec struct {
 	// EscapeMatters says whether a closure handed to code outside the table
 	// is relevant to the rule (then an "escape" event is emitted).
 	EscapeMatters func(t *Tracer, fr *Frame, mc *ssa.MakeClosure) bool
-	MaxPaths int
-	MaxDepth int
+	MaxPaths      int
+	MaxDepth      int
 	// InlineHelpers descends into unexported functions of the root's package
 	// (extracted helpers), unless the call's events say Stop.
 	InlineHelpers bool
@@ -280,16 +281,16 @@ type Spec struct {
 
 // Tracer enumerates paths of one root.
 type Tracer struct {
-	P       *Prog
-	Spec    *Spec
-	Root    *ssa.Function
-	RootFr  *Frame
-	nframes int
-	Paths   [][]Ev
-	Trunc   bool   // path budget exhausted
-	Escapes []string // closures handed to unknown code
-	Init    func(t *Tracer)
-	cur     State // state at the instruction being classified (for path-sensitive Resolve)
+	P        *Prog
+	Spec     *Spec
+	Root     *ssa.Function
+	RootFr   *Frame
+	nframes  int
+	Paths    [][]Ev
+	Trunc    bool     // path budget exhausted
+	Escapes  []string // closures handed to unknown code
+	Init     func(t *Tracer)
+	cur      State // state at the instruction being classified (for path-sensitive Resolve)
 	cellMemo map[ssa.Value]*cellInfo
 	interest map[*ssa.Function]int // 0 unknown, 1 yes, 2 no
 }
@@ -421,6 +422,9 @@ func (t *Tracer) execBlock(fr *Frame, b *ssa.BasicBlock, idx int, st State, k fu
 						st = st.bump(fv)
 					}
 				}
+				if _, isAlloc := sx.Addr.(*ssa.Alloc); !isAlloc {
+					st = st.bump(memVar)
+				}
 				t.cur = st
 				if cr := t.Resolve(fr, sx.Addr); cr.V != nil {
 					if al, ok := cr.V.(*ssa.Alloc); ok {
@@ -519,6 +523,8 @@ func (t *Tracer) execIf(fr *Frame, i *ssa.If, st State, k func(State, []Ref)) {
 		dirs = []bool{c}
 	} else if c, ok := constBool(t.Resolve(fr, i.Cond).V); ok {
 		dirs = []bool{c}
+	} else if v, ok := t.foldCompare(vfr, vcond); ok {
+		dirs = []bool{v != vflip}
 	} else if v, ok := t.evalCond(fr, i.Cond); ok {
 		dirs = []bool{v}
 	} else if v, ok := t.evalCond(vfr, vcond); ok && vcond != i.Cond {
@@ -567,6 +573,47 @@ func (t *Tracer) execIf(fr *Frame, i *ssa.If, st State, k func(State, []Ref)) {
 		}
 		t.follow(fr, b, succ, st2, k)
 	}
+}
+
+// memVar is the pseudo-field whose epoch counts possible writes to memory
+// reached through pointers (stores not to a local cell, calls).
+var memVar = types.NewVar(token.NoPos, nil, "<mem>", types.Typ[types.Int])
+
+// foldCompare decides x == y / x != y when both sides resolve, across frames,
+// to constants, or one to nil and the other to a freshly made value (a helper
+// called with a literal nil, a merged twin testing its mode parameter).
+func (t *Tracer) foldCompare(fr *Frame, c ssa.Value) (bool, bool) {
+	if u, ok := c.(*ssa.UnOp); ok && u.Op == token.NOT {
+		v, ok := t.foldCompare(fr, u.X)
+		return !v, ok
+	}
+	b, ok := c.(*ssa.BinOp)
+	if !ok || (b.Op != token.EQL && b.Op != token.NEQ) {
+		return false, false
+	}
+	x, y := t.Resolve(fr, b.X), t.Resolve(fr, b.Y)
+	cx, okx := x.V.(*ssa.Const)
+	cy, oky := y.V.(*ssa.Const)
+	fresh := func(v ssa.Value) bool {
+		switch v.(type) {
+		case *ssa.Alloc, *ssa.MakeClosure, *ssa.Function, *ssa.MakeMap, *ssa.MakeSlice, *ssa.MakeChan, *ssa.MakeInterface, *ssa.Global:
+			return true
+		}
+		return false
+	}
+	eq, known := false, false
+	switch {
+	case okx && oky && cx.IsNil() && cy.IsNil():
+		eq, known = true, true
+	case okx && oky && cx.Value != nil && cy.Value != nil:
+		eq, known = constant.Compare(cx.Value, token.EQL, cy.Value), true
+	case okx && cx.IsNil() && fresh(y.V), oky && cy.IsNil() && fresh(x.V):
+		eq, known = false, true
+	}
+	if !known {
+		return false, false
+	}
+	return eq == (b.Op == token.EQL), true
 }
 
 // condKey canonicalises a branch condition so that repeated tests of the same
@@ -623,6 +670,14 @@ func (t *Tracer) valKey(fr *Frame, v ssa.Value, st State) string {
 	if u, ok := r.V.(*ssa.UnOp); ok && u.Op == token.MUL {
 		if fv, ok := u.X.(*ssa.FreeVar); ok {
 			return "cellof:" + fnName(fv.Parent()) + ":" + fv.Name()
+		}
+		// a load through a pointer value (*ur.Count): the same pointer, nothing possibly written in between
+		switch u.X.(type) {
+		case *ssa.Alloc, *ssa.Global, *ssa.FieldAddr, *ssa.IndexAddr:
+		default:
+			if _, isPtr := u.X.Type().Underlying().(*types.Pointer); isPtr {
+				return fmt.Sprintf("deref(%s#%d)", t.valKey(r.Fr, u.X, st), st.epoch(memVar))
+			}
 		}
 	}
 	// a value computed inside a loop is a new value on every iteration
@@ -801,6 +856,9 @@ func (t *Tracer) execCall(fr *Frame, c ssa.CallInstruction, st State, k func(Sta
 		if e.Stop {
 			stop = true
 		}
+	}
+	if _, isB := com.Value.(*ssa.Builtin); !isB {
+		st = st.bump(memVar) // anything behind a pointer may have been written
 	}
 	if stop || fr.Depth >= t.Spec.MaxDepth {
 		for _, f := range t.P.MayWrite(c) {
@@ -993,14 +1051,12 @@ func (t *Tracer) FmtPath(evs []Ev) string {
 	return strings.Join(parts, " → ")
 }
 
-
 func (t *Tracer) evalCond(fr *Frame, c ssa.Value) (bool, bool) {
 	if t.Spec.Eval == nil {
 		return false, false
 	}
 	return t.Spec.Eval(t, fr, c)
 }
-
 
 // entries counts how often block b of frame fr was entered on the path.
 func (t *Tracer) entries(fr *Frame, b *ssa.BasicBlock, st State) int {
@@ -1040,7 +1096,6 @@ func (t *Tracer) foldIntD(fr *Frame, v ssa.Value, depth int) (int64, bool) {
 	return 0, false
 }
 
-
 // withRet records the (single) value an inlined call returned on this path.
 func (t *Tracer) withRet(st State, fr *Frame, c ssa.CallInstruction, rets []Ref) State {
 	v, ok := c.(ssa.Value)
@@ -1050,7 +1105,6 @@ func (t *Tracer) withRet(st State, fr *Frame, c ssa.CallInstruction, rets []Ref)
 	st.rets = &retList{fr: fr, call: v, vals: rets, next: st.rets}
 	return st
 }
-
 
 // interesting reports whether f, its closures or (transitively) the
 // unexported helpers of its package it calls contain an instruction the
